@@ -189,6 +189,25 @@ def c16():
                 bs.append(dict(id=len(bs) + 1, cache="default", users=u["users"], epochs=u["epochs"], versions=u["versions"], nodes=u["nodes"],
                                setup=[{"op": "set", "recs": old}, {"op": "flush"}], tasks=tasks, schedule=sched + [1, 2, 4] * 6, post=True, start_gate=True))
     chk.cov["concurrent_flush_fill_race_runs"] = len(bs) - nb1
+    # free-running tasks on a 4-thread runtime (no gate): ONE writer per key writing successive versions, readers of the
+    # same keys and a flusher racing with it; at quiescence every read must equal the database
+    nb2 = len(bs)
+    us = UNIVERSE["MCStorage_sim.cfg"]
+    for k in range(60 if chk.tier == "quick" else 600):
+        writes = [[["node", "n1", e]] for e in (1, 2, 3, 4)] + [[["azks", e]] for e in (1, 2, 3, 4)] + [[["vs", "u", e, e, "p"]] for e in (1, 2, 3)]
+        rnd2.shuffle(writes)
+        writes.sort(key=lambda r: (r[0][0], r[0][2] if r[0][0] != "azks" else r[0][1]))   # per key kind: ascending versions
+        order = list(range(len(writes)))
+        tasks = [{"pid": 1, "ops": [{"op": "set", "recs": w} for w in writes if w[0][0] == "node"]},
+                 {"pid": 2, "ops": [{"op": "set", "recs": w} for w in writes if w[0][0] == "azks"]},
+                 {"pid": 5, "ops": [{"op": "set", "recs": w} for w in writes if w[0][0] == "vs"]}]
+        for pid, key in ((3, ["node", "n1"]), (4, ["azks"]), (6, ["vs", "u", 2]), (7, ["node", "n1"])):
+            tasks.append({"pid": pid, "ops": [{"op": "get", "key": key}] * (6 + k % 9)})
+        if k % 3 == 0:
+            tasks.append({"pid": 8, "ops": [{"op": "flush"}, {"op": "get", "key": ["azks"]}, {"op": "flush"}]})
+        bs.append(dict(id=len(bs) + 1, cache=["default", "short"][k % 2], users=us["users"], epochs=us["epochs"], versions=us["versions"], nodes=us["nodes"],
+                       setup=[], tasks=tasks, schedule=[], mt=True, post=False))
+    chk.cov["multi_thread_runs"] = len(bs) - nb2
     traces = run_storage_harness(chk, bs)
     results = validate_traces("TraceStorage", "TraceStorage.cfg", traces, chk.wd)
     chk.handle_validation(results)
